@@ -42,6 +42,8 @@ def gen_job(verif_seed, tier, index):
         if g.random() < 0.3:
             ff = ffgen.gen_ff(g)
         rg = ffgen.gen_resgraph(g, ff)
+        if g.random() < 0.06:
+            ff, rg = ffgen.gen_ff_linktype(g)
         r = g.random()
         out = g.choice(["out.itp", "out.itp", "other.itp", "sub/out.itp", "PEO_1.5k", "sub/polymer", "mol.v2.top"])
         if r < 0.15:
